@@ -98,6 +98,35 @@ var Presets = map[string]*Config{
 			RuneFn:      "GIV.Build.runes",
 		}
 	}(),
+	// imports/read.go (C18): the importReader byte machine.  The structure is threaded through its pointer-receiver
+	// methods, `imports *[]string` is an in-out parameter, io.Reader / *bufio.Reader are the remaining input
+	// (GIV/GoLibReader.lean; no I/O error other than io.EOF), errSyntax / errNUL / io.EOF are distinct messages.
+	// The loop budgets are those of the hand-written model's loops (GIV/Model/ReadImports.lean) plus one — the model
+	// still evaluates the loop condition when its budget is 0, the translation does not — so that the equivalence
+	// proofs run in lock step; that they suffice is the model's termination theorem (GIV.ReadImports.scan_not_stuck).
+	"importsread": func() *Config {
+		return &Config{
+			Lib: bytesLib(),
+			Globals: map[string]Global{
+				"utf8.RuneSelf": {Lean: "128", T: TInt},
+				"io.EOF":        {Lean: "GoLib.ioEOF", T: TError},
+			},
+			Structs: map[string]*Struct{
+				"importReader": {Lean: "GoImportReader", Fields: []Field{
+					{"b", "b", &Type{K: KReader, Name: "*bufio.Reader"}}, {"buf", "buf", TBytes}, {"peek", "peek", TByte},
+					{"err", "err", TError}, {"eof", "eof", TBool}, {"nerr", "nerr", TInt}}},
+			},
+			Fuel: map[string]string{
+				"peekByte#1": "r.b.length + 3", "peekByte#2": "r.b.length + 2", "peekByte#3": "r.b.length + 3",
+				"readIdent#1": "r.b.length + 3", "readString#1": "r.b.length + 3", "readString#2": "r.b.length + 3",
+				"ReadImports#1": "b.length + 3", "ReadImports#2": "r.b.length + 2", "ReadImports#3": "r.b.length + 3",
+			},
+			Threaded:  map[string]bool{"importReader": true},
+			PtrParams: true,
+			Readers:   true,
+			Sentinels: map[string]string{"io.EOF": "EOF"},
+		}
+	}(),
 	"diff": func() *Config {
 		lib := bytesLib()
 		lib["strings.SplitAfter"] = LibFn{Lean: "GIV.Diff.splitAfterNL", Ret: &Type{K: KList, Elem: TStr}, FixedArgs: []string{"", "\"\\n\""}}
